@@ -7,6 +7,20 @@
 EXTENDS Ranges, RecordLoop
 
 R(cond, why) == IF cond THEN {} ELSE {why}
+(* Scope (binding): only behaviour named by the statement of C18 may become a VIOLATION:
+     "make_int_range(b, e) yields b, b+1, ..., e-1 (nothing if e <= b) and make_int_range_count(n)
+      yields 0..n-1, with size() equal to the number of elements whenever that number is representable
+      in the range's own integer type, also for strong-typedef and narrow integer types; enum ranges
+      yield every enumerator of the (closed) sub-range once in order; a cyclic iterator advanced by n
+      equals |n| single steps forward or backward and always stays inside its boundary; the grid spiral
+      range visits every lattice point within the given Manhattan distance exactly once in rings of
+      non-decreasing distance; and iterator::range, adapt_range and the moore/neumann neighbour helpers
+      return exactly the stated elements."
+   Judged but OBSERVED ONLY (prefix "obs:", never rejects a record): fcppt::range::size, math::int_range,
+   what a cyclic iterator dereferences to, the random-access operations that are not "advance by n"
+   (difference, subscript, ordering, equality, swap, values returned by ++/--), and the input-iterator
+   operations of int_iterator / enum_::iterator taken by themselves. *)
+Obs(S) == {"obs:" \o w : w \in S}
 
 RangesReasons(r) ==
   CASE r.f = "int_range" ->
@@ -14,6 +28,7 @@ RangesReasons(r) ==
          \cup R(~r.capped, "iteration-does-not-end")
          \cup R(r.capped \/ r.seq = IntRange(r.b, r.e), "sequence")
          \cup R(SizeOk(r.T, r.b, r.e, r.size), "size")
+         \cup Obs(R(r.rsize = -1 \/ r.rsize = Count(r.b, r.e), "range-size"))
     [] r.f = "int_range_count" ->
          R(r.n \in TypeVals(r.T), "HARNESS-PRECONDITION")
          \cup R(~r.capped, "iteration-does-not-end")
@@ -22,7 +37,7 @@ RangesReasons(r) ==
     [] r.f = "int_range_rsize" ->
          R(r.seq = IntRange(r.b, r.e), "sequence")
          \cup R(r.size = Count(r.b, r.e), "size")
-         \cup R(r.rsize = Count(r.b, r.e), "range-size")
+         \cup Obs(R(r.rsize = Count(r.b, r.e), "range-size"))
     [] r.f = "int_range_wide" ->
          R(IsLimbs(r.b) /\ IsLimbs(r.e) /\ Len(r.b) = Len(r.e) /\ \A k \in 1..Len(r.seq) : IsLimbs(r.seq[k]) /\ Len(r.seq[k]) = Len(r.b),
            "HARNESS-PRECONDITION")
@@ -37,6 +52,36 @@ RangesReasons(r) ==
          \cup R(~r.capped, "iteration-does-not-end")
          \cup R(r.capped \/ r.seq = EnumRange(s, e), "sequence")
          \cup R(r.size = e - s + 1, "size")
+         \cup Obs(R(r.rsize = e - s + 1, "range-size"))
+    [] r.f = "cyclic_ra" ->
+         (* extension: fcppt::iterator::base on a random-access cyclic_iterator; a at i, b at j *)
+         LET in(x) == x \in 0..(r.len - 1)
+             adv(x, d) == CycAdvance(x, d, r.len)
+         IN
+         R(r.len >= 1 /\ in(r.i) /\ in(r.j), "HARNESS-PRECONDITION")
+         \cup R(in(r.apn) /\ in(r.back) /\ in(r.npa) /\ in(r.reach) /\ in(r.pre) /\ in(r.post) /\ in(r.dec), "leaves-boundary")
+         \cup R(r.apn = adv(r.i, r.n) /\ r.npa = r.apn, "operator-plus")
+         \cup R(r.back = r.i, "plus-then-minus")          \* advanced by n, then by -n: |n| steps there and back
+         \cup R(r.pre = CycInc(r.i, r.len) /\ r.post = r.pre, "increment")      \* the single steps themselves
+         \cup R(r.dec = CycDec(r.i, r.len), "decrement")
+         \cup Obs(R(r.preret = r.pre /\ r.postold = r.i /\ r.decold = r.i, "increment-return-values"))
+         \cup Obs(R(r.reach = r.j, "advance-by-difference"))
+         \cup Obs(R(r.sub = r.deref /\ r.deref = r.base + adv(r.i, r.n), "subscript"))
+         \cup Obs(R(r.lt = (r.dba > 0) /\ r.gt = (r.dab > 0) /\ r.le = ~r.gt /\ r.ge = ~r.lt, "ordering-vs-difference"))
+         \cup Obs(R(r.eq = (r.i = r.j) /\ r.ne = ~r.eq, "equality"))
+         \cup Obs(R(Cardinality({x \in {1, 2, 3} : (x = 1 /\ r.lt) \/ (x = 2 /\ r.eq) \/ (x = 3 /\ r.gt)}) = 1, "trichotomy"))
+         \cup Obs(R(r.swa = r.j /\ r.swb = r.i, "swap"))
+    [] r.f = "int_iter" ->
+         R(r.v \in TypeVals(r.T) /\ r.w \in TypeVals(r.T) /\ r.v < TypeMax(r.T), "HARNESS-PRECONDITION")
+         \cup Obs(R(r.deref = r.v, "dereference"))
+         \cup Obs(R(r.pre = r.v + 1 /\ r.preret = r.pre /\ r.post = r.v + 1 /\ r.postold = r.v, "increment"))
+         \cup Obs(R(r.eq = (r.v = r.w) /\ r.ne = ~r.eq, "equality"))
+         \cup Obs(R(r.swa = r.w /\ r.swb = r.v, "swap"))
+    [] r.f = "enum_iter" ->
+         R(r.v \in 0..(r.n - 1) /\ r.w \in 0..(r.n - 1), "HARNESS-PRECONDITION")
+         \cup Obs(R(r.deref = r.v /\ r.postold = r.v, "dereference"))
+         \cup Obs(R(r.pre_is_post /\ (r.v + 1 < r.n => r.pre = r.v + 1), "increment"))
+         \cup Obs(R(r.eq = (r.v = r.w) /\ r.ne = ~r.eq, "equality"))
     [] r.f = "cyclic" ->
          LET in(i) == i \in 0..(r.len - 1)
              exp == CycSteps(r.start, r.n, r.len)
@@ -48,26 +93,27 @@ RangesReasons(r) ==
          \cup R(r.adv = CycAdvance(r.start, r.n, r.len), "advance")
          \cup R(r.plus = CycAdvance(r.start, r.n, r.len), "operator-plus")
          \cup R(r.sub = CycAdvance(r.start, -r.n, r.len), "operator-minus")
-         \cup R(r.advv = r.base + r.adv /\ r.s0v = r.base + r.start
-                /\ Len(r.stepv) = Len(r.steps) /\ \A k \in 1..Len(r.steps) : r.stepv[k] = r.base + r.steps[k], "dereference")
+         \cup Obs(R(r.advv = r.base + r.adv /\ r.s0v = r.base + r.start
+                    /\ Len(r.stepv) = Len(r.steps) /\ \A k \in 1..Len(r.steps) : r.stepv[k] = r.base + r.steps[k], "dereference"))
     [] r.f = "spiral" ->
          R(r.d >= 0, "HARNESS-PRECONDITION")
          \cup R(~r.capped, "iteration-does-not-end")
          \cup R(r.capped \/ Injective(r.vis), "position-visited-twice")
          \cup R(r.capped \/ SeqSet(r.vis) = Disk(r.o, r.d), "not-the-manhattan-disk")
          \cup R(\A k \in 1..(Len(r.vis) - 1) : Manhattan(r.vis[k], r.o) <= Manhattan(r.vis[k + 1], r.o), "distance-decreases")
+         \cup Obs(R(r.capped \/ r.rsize = DiskSize(r.d), "range-size"))
     [] r.f = "moore" ->
          R(SeqSet(r.r) = Moore(r.p) /\ Len(r.r) = 8, "moore-neighbours")
     [] r.f = "neumann" ->
          R(SeqSet(r.r) = Neumann(r.p) /\ Len(r.r) = 4, "neumann-neighbours")
     [] r.f = "iter_range" ->
-         LET i == IF r.via \in {"adapt", "adapt_const"} THEN 0 ELSE r.i
-             j == IF r.via \in {"adapt", "adapt_const"} THEN r.len ELSE r.j
+         LET i == IF r.via \in {"adapt", "adapt_const", "adapt_list"} THEN 0 ELSE r.i
+             j == IF r.via \in {"adapt", "adapt_const", "adapt_list"} THEN r.len ELSE r.j
          IN
          R(0 <= i /\ i <= j /\ j <= r.len /\ Len(r.cont) = r.len, "HARNESS-PRECONDITION")
          \cup R(r.seq = SubSeq(r.cont, i + 1, j), "sequence")
-         \cup R(r.rsize = j - i, "range-size")
+         \cup Obs(R(r.rsize = j - i, "range-size"))
     [] r.f = "static_int_range" ->
-         R(r.seq = IntRange(r.s, r.e), "sequence")
+         Obs(R(r.seq = IntRange(r.s, r.e), "sequence"))
     [] OTHER -> {"unknown-record-kind"}
 =============================================================================
